@@ -37,6 +37,12 @@ def pal_unicode(sym):
     return "%sä‮\U0001f600́%s" % (sym, sym)
 
 
+def pal_bslash(sym):
+    # backslashes without any quote or control character (a serialiser that looks for the latter only must still escape these);
+    # some of them begin what would be a legal JSON escape
+    return "%s\\_(%s)_/\\n\\u0041 C:\\dir\\" % (sym, sym)
+
+
 def pal_long(sym):
     return sym + "x" * 300 + sym
 
@@ -49,6 +55,7 @@ PALETTES = {
     "nul": pal_nul,
     "unicode": pal_unicode,
     "long": pal_long,
+    "bslash": pal_bslash,
 }
 
 UNKNOWN_ID = "zz"  # symbol of a well-formed id that no event has
@@ -161,7 +168,7 @@ class Universe:
         self.conc[sym] = ev
         exp = []
         for t in d.get("tags", []):
-            if t[0] == "expiration" and len(t) >= 2:
+            if len(t) >= 2 and t[0] == "expiration":
                 m = re.fullmatch(r"t(-?\d+)", t[1])
                 exp = ["n", int(m.group(1))] if m else ["bad"]
                 break
